@@ -150,6 +150,8 @@ class XorEncodedFile(io.RawIOBase):
             nonce = self.fh.read(4)
         except OSError:
             nonce = b"\x00\x00\x00\x00"
+        # a short read (position at or beyond EOF) must not move the file position
+        self.fh.seek(pos)
         if pos < self.nonce_offset + 12:
             # Exclude "encoded filesize" as nonce:
             # | nonce | encoded filesize | encoded MZ | encoded .. |
@@ -162,24 +164,26 @@ class XorEncodedFile(io.RawIOBase):
 
     def seek(self, offset, whence=io.SEEK_SET):
         if whence == io.SEEK_SET:
-            return self.fh.seek(offset + self.nonce_offset + 8, whence)
-        return self.fh.seek(offset, whence)
+            self.fh.seek(offset + self.nonce_offset + 8, whence)
+        else:
+            self.fh.seek(offset, whence)
+        return self.tell()
 
     def read(self, n=-1):
+        if n is None or n < 0:
+            n = -1
         data = b""
+        if n == 0:
+            return data
         nonce = self.read_nonce()
-        while True:
-            chunk = self.fh.read(4)
+        while n < 0 or len(data) < n:
+            # never consume more of the underlying file than is returned to the caller
+            chunk = self.fh.read(4 if n < 0 else min(4, n - len(data)))
             if not chunk:
                 break
-            # log.debug(f"{chunk}, {nonce}")
-            data += xor(chunk, nonce)
-            nonce = chunk
-            if n > 0 and len(data) >= n:
-                break
-        if n == -1:
-            n = None
-        return data[:n]
+            data += xor(chunk, nonce[: len(chunk)])
+            nonce = nonce[len(chunk) :] + chunk
+        return data
 
 
 @catch_sigpipe
